@@ -215,7 +215,7 @@ Next == \/ \E p \in PieceArgs : OpAdd(p) \/ OpDiscard(p)
 Spec == Init /\ [][Next]_vars
 
 (* the canonical lists of the argument sets, for the harness (printed once) *)
-ASSUME \A T \in Others : PrintT(<<"c13canon", T, Canon(T)>>)
+ASSUME \A T \in Others : PrintT(<<"c13canon", <<T, Canon(T)>>>>)
 
 (* ---- refinement invariants --------------------------------------------- *)
 TypeOK == S \subseteq Universe
@@ -243,6 +243,10 @@ ComplementCorrect ==
 (* THE representation invariant of the property: canonical, hence equal for *)
 (* equal sets whatever the history (extensional ==).                        *)
 RepCanonical == IsCanonical(list) /\ list = Canon(S)
+(* its two structural halves, named so that TLC can exhibit each defect of   *)
+(* the pinned add() separately                                              *)
+Merged    == \A i \in 1..(Len(list) - 1) : Hi(list[i]) # Lo(list[i + 1])      \* adjacent pieces are merged
+UnitIsInt == \A i \in 1..Len(list) : (Hi(list[i]) = Lo(list[i]) + 1) => Len(list[i]) = 1
 
 (* iter_code_points merges to the canonical pieces (checked once, in the    *)
 (* initial state: it does not depend on the state)                          *)
